@@ -117,11 +117,14 @@ func c19Prop(c *sim.Case) {
 		}
 	}
 	check("start-up", true)
-	n := 1 + sim.Pick(c, "nevents", 16)
+	n := 3 + sim.Pick(c, "nevents", 22)
 	var kinds []string
 	ctr := 0
 	for e := 0; e < n; e++ {
-		name := append(names, "unrelated")[sim.Pick(c, "secret", 4)]
+		name := append(append([]string{}, names...), "unrelated", fs[sim.Pick(c, "secret.of", len(fs))].refName)[sim.Weighted(c, "secret", 1, 1, 1, 1, 4)]
+		if name == "" {
+			name = "unrelated"
+		}
 		sns := []string{ns, "other"}[sim.Weighted(c, "ns", 5, 1)]
 		key := types.NamespacedName{Namespace: sns, Name: name}
 		kind := sim.PickStr(c, "event", "set", "set", "set", "empty", "dropkey", "deleting", "delete", "spurious")
@@ -218,5 +221,5 @@ func TestC19(t *testing.T) {
 		return
 	}
 	r.CheckKnown(parts)
-	r.Rapid("histories", r.N(3000, 100000), c19Prop)
+	r.Rapid("histories", r.N(8000, 150000), c19Prop)
 }
